@@ -14,7 +14,7 @@ from ..coqrun import cstr, cZ, cnat, cbool, clist, cpair, copt
 from ..tok import S
 
 PID = "C15"
-COQ_HEADER = ("From stdpp Require Import gmap strings.\nFrom SK Require Import lib.Tok model.C15_Model model.C15_Ext model.C15_View.\n"
+COQ_HEADER = ("From stdpp Require Import gmap strings.\nFrom SK Require Import lib.Tok model.C15_Model model.C15_Ext model.C15_View model.C15_Repr.\n"
               "Local Open Scope string_scope.\n")
 SHARD = 150
 RULE = ("operation histories over k networks. Old language (add generated/explicit id, remove reaction, remove species +/- prune, "
@@ -27,6 +27,8 @@ RULE = ("operation histories over k networks. Old language (add generated/explic
         "View language (kinds h3-*, round 4): the extended language plus backend objects (_CRNGraphBackend and its three public subclasses, all "
         "option combinations) that cache a graph view of a network: every store op between two rounds of view accesses, sampled pairs, random "
         "histories, backends on empty networks / re-bound slots, in-place coefficient edits. "
+        "Repr cases (kinds h4-*, round 5): a history of the extended language, then repr() of every network, stored reaction and caller-held side "
+        "(ids with digits in front / in the middle / none / empty, equal sort keys, labels that are strings or integers). "
         "A case is non-trivial when at least two ops succeed and a remove/merge/copy op occurs; distinct = distinct op lists")
 EXHAUSTIVE = {"quick": False, "thorough": False}
 EXPLANATION = ("Theorems: invariant (indices exact, species = occurring (+kept), mol within species, ids unique, order list = key set) "
@@ -35,19 +37,21 @@ EXPLANATION = ("Theorems: invariant (indices exact, species = occurring (+kept),
                "species, never for reaction ids; last entry wins; no truthiness test); RXNSide normalisation = positive multiset of positive counts; "
                "incidence sparse and dense = products - reactants; neighbors exact; paths sound, complete, ordered; whole-history statement of the first clause; "
                "cached graph views (version count of the store + cache of the backend as a state machine): after any history of store-method calls the view handed "
-               "out was built from a store that agrees with the current one on everything the export reads (refuted for in-place coefficient edits through a returned edge: known finding). "
+               "out was built from a store that agrees with the current one on everything the export reads (refuted for in-place coefficient edits through a returned edge: known finding), and that graph IS the C16 export of the current network; "
+               "the three __repr__ methods: repr(side) is read back by RXNSide.from_str on the label domain, the reaction lines of repr(H) are a permutation of the stored "
+               "reactions sorted stably by (id without digits, number made of the digits). "
                "Correspondence: model state (and every answer handed back) compared with the implementation after every operation.")
 TRUSTED_BASE = [
     "Coq 8.16.1 kernel + vm_compute (no native_compute)",
     "std++ 1.8.0 gmap/gset (axiom-free)",
-    "hand-written models coq/model/C15_Model.v + coq/model/C15_Ext.v + coq/model/C15_View.v tied to synkit/CRN/Hypergraph/{hypergraph,rxn,hyperedge,backend}.py by the per-run correspondence",
-    "harness encoders harness/props/C15.py + harness/gen/c15_ext.py + harness/gen/c15_view.py (op list -> Gallina literal; attributes/answers -> tok; str()/int() coercion of labels and counts; json.dumps of molecule labels)",
+    "hand-written models coq/model/C15_Model.v + coq/model/C15_Ext.v + coq/model/C15_View.v + coq/model/C15_Repr.v (on the text functions of coq/model/C16_Model.v) tied to synkit/CRN/Hypergraph/{hypergraph,rxn,hyperedge,backend}.py by the per-run correspondence",
+    "harness encoders harness/props/C15.py + harness/gen/c15_ext.py + harness/gen/c15_view.py + harness/gen/c15_repr.py (op list -> Gallina literal; attributes/answers -> tok; str()/int() coercion of labels and counts; json.dumps of molecule labels)",
     "CPython dict/set semantics; copy.deepcopy",
 ]
 ASSUMPTIONS = ["species labels and ids are printable ASCII strings", "molecule labels are strings",
                "RXNSide input given as iterable of (label, int) pairs"]
 TESTED_NOT_PROVED = [
-                     "__repr__ (oracle: mentions every stored id and species; equal for an equal network)",
+                     "__repr__ with molecule labels that are not strings or integers (str() of arbitrary objects is outside the model; oracle only)",
                      "insertion order inside a side (RXNSide.to_dict / expand order); sides are unordered maps in the model",
                      "numpy array construction of the dense matrix (the model has lists of rows)",
                      "set_mol_map with non-string keys (outside the model's domain; oracle only)"]
@@ -100,6 +104,9 @@ def _apply(nets, op):
 
 
 def impl(case):
+    if case.get("kind", "").startswith("h4"):
+        from ..gen import c15_repr
+        return c15_repr.impl4(case)
     if case.get("kind", "").startswith("h3"):
         from ..gen import c15_view
         return c15_view.impl3(case)
@@ -143,6 +150,9 @@ def _op(op):
 
 
 def coq_case(case):
+    if case.get("kind", "").startswith("h4"):
+        from ..gen import c15_repr
+        return c15_repr.coq_case4(case)
     if case.get("kind", "").startswith("h3"):
         from ..gen import c15_view
         return c15_view.coq_case3(case)
@@ -203,6 +213,9 @@ def _check_net(H, spec, kept, where):
 
 
 def oracle(case):
+    if case.get("kind", "").startswith("h4"):
+        from ..gen import c15_repr
+        return c15_repr.oracle4(case)
     if case.get("kind", "").startswith("h3"):
         from ..gen import c15_view
         return c15_view.oracle3(case)
@@ -299,7 +312,7 @@ def shrink(case, fl):
                     break
             except Exception:
                 pass
-    return dict(case, ops=ops, skip=0, lite=False, name=case.get("name", "") + "(shrunk)") if case.get("kind", "").startswith(("h2", "h3")) \
+    return dict(case, ops=ops, skip=0, lite=False, name=case.get("name", "") + "(shrunk)") if case.get("kind", "").startswith(("h2", "h3", "h4")) \
         else dict(case, ops=ops, name=case.get("name", "") + "(shrunk)")
 
 
@@ -422,6 +435,8 @@ def gen_cases(tier, rng):
     cases += c15_ext.gen_cases2(tier, rng)
     from ..gen import c15_view
     cases += c15_view.gen_cases3(tier, rng)
+    from ..gen import c15_repr
+    cases += c15_repr.gen_cases4(tier, rng)
     return cases
 
 LEVEL_TEXT = ("Machine-checked proof (Coq) over an executable model of CRNHyperGraph: the store invariant (indices exact, species = occurring "
@@ -435,4 +450,4 @@ LEVEL_TEXT = ("Machine-checked proof (Coq) over an executable model of CRNHyperG
               "the store) as a state machine over the store's version count: a view handed out after any history of store-method calls is current. The model is tied to the Python code by comparing the complete public state and every answer after "
               "every operation of thousands of generated histories on every run.")
 LEVEL_NOTE = ("Trusted: Coq kernel + vm_compute, std++; the hand-written model and the harness encoders; CPython dict/set/deepcopy semantics. "
-              "Tested only: __repr__, numpy construction of the dense matrix; parse_rxns / add_rxn_from_str belong to C16.")
+              "Tested only: numpy construction of the dense matrix; parse_rxns / add_rxn_from_str belong to C16.")
